@@ -358,15 +358,45 @@ def call_args(case):
     return restr, deform, case["ign"], case.get("autog", True)
 
 
+class RunAway(Exception):
+    """the search ran far beyond its budget (it has no termination guarantee: when the measure is invariant under the
+    enabled deformation types, rounding noise keeps producing 'new minima'); not a clause of C06: the case is skipped"""
+
+
+def pass_cap(case, n_small):
+    return 60 * int(case["sf"]) * max(1, n_small) + 3000
+
+
+@contextlib.contextmanager
+def capped_passes(cap):
+    """counts the calls of the module-level accept_metropolis (one per pass) and raises RunAway beyond the cap;
+    the function itself is the implementation's"""
+    import gaddlemaps._backend as B
+    saved = B.accept_metropolis
+    count = [0]
+
+    def counted(*a, **kw):
+        count[0] += 1
+        if count[0] > cap:
+            raise RunAway()
+        return saved(*a, **kw)
+    B.accept_metropolis = counted
+    try:
+        yield count
+    finally:
+        B.accept_metropolis = saved
+
+
 def run_plain(start, end, case):
-    """one alignment on the unwrapped implementation.  Returns (ali, exception or None)"""
+    """one alignment on the implementation.  Returns (ali, exception or None)"""
     import gaddlemaps._alignment as A
     restr, deform, ign, autog = call_args(case)
     state = np.random.get_state()
     err = None
     ali = None
     try:
-        with steps_factor(case["sf"]), contextlib.redirect_stdout(io.StringIO()), np.errstate(all="ignore"):
+        with steps_factor(case["sf"]), contextlib.redirect_stdout(io.StringIO()), np.errstate(all="ignore"), \
+                capped_passes(pass_cap(case, min(len(start), len(end)))):
             np.random.seed(case["seed"])
             ali = A.Alignment(start, end)
             try:
@@ -384,7 +414,8 @@ class Recorder:
 
     RNAMES = ("choice", "normal", "uniform", "rand", "randint")
 
-    def __init__(self):
+    def __init__(self, max_passes=None):
+        self.max_passes = max_passes
         self.args = None
         self.ncalls = 0
         self.steps = []
@@ -455,6 +486,8 @@ class Recorder:
                     rec.cur["neg"] = bool(int(v) == -1)
                     rec.cur["choice_arg_atom"] = [int(x) for x in np.atleast_1d(a)]
                 return v
+            if rec.max_passes is not None and len(rec.steps) >= rec.max_passes:
+                raise RunAway()
             if rec.cur is not None:
                 rec.protocol.append("pass %d: a new type was drawn before the previous proposal was judged" % len(rec.steps))
             rec.cur = {"kind": int(v), "sim": [int(x) for x in np.atleast_1d(a)], "gen": []}
@@ -520,8 +553,9 @@ def run_recorded(case):
     view_s, view_e = mol_view(start), mol_view(end)
     restr, deform, ign, autog = call_args(case)
     state = np.random.get_state()
-    rec = Recorder()
+    rec = Recorder(max_passes=pass_cap(case, min(len(start), len(end))))
     err = None
+    runaway = False
     try:
         with steps_factor(case["sf"]), contextlib.redirect_stdout(io.StringIO()), np.errstate(all="ignore"):
             np.random.seed(case["seed"])
@@ -529,13 +563,15 @@ def run_recorded(case):
             with rec:
                 try:
                     ali.align_molecules(restr, deform, ign, autog)
+                except RunAway:
+                    runaway = True
                 except Exception as ex:     # noqa
                     err = ex
     finally:
         np.random.set_state(state)
     obs = {"view_start": view_s, "view_end": view_e, "rec": rec, "err": None if err is None else err_of(err),
-           "exc": None if err is None else repr(err)[:200]}
-    if err is None:
+           "exc": None if err is None else repr(err)[:200], "runaway": runaway}
+    if err is None and not runaway:
         obs["start"], obs["end"] = snapshot(ali.start), snapshot(ali.end)
     return obs
 
@@ -710,10 +746,11 @@ def oracle_case(case, repeat=True):
     if not same_snapshot(snapshot(end), before_e):
         bad.append("the end Molecule supplied by the caller was modified")
     if err is not None:
+        if isinstance(err, RunAway):
+            return bad, {"runaway": True}
         if case.get("expect_error"):
             return bad, None
         # a mobile molecule that is not connected is refused with IOError (documented): not an outcome
-        small_adj, small_n = (adj_s, len(start)) if len(start) < len(end) else (adj_e, len(end))
         if isinstance(err, OSError):
             return bad, None
         bad.append("align_molecules raised %r on an input of the property's domain" % (err,))
@@ -922,13 +959,16 @@ def correspondence(ctx):
     terms, meta, proto = [], [], []
     hist = {"tie": 0, "start_mobile": 0, "end_mobile": 0, "no_optimiser_call": 0, "error": 0, "passes": 0,
             "accepted": 0, "kind0": 0, "kind1": 0, "kind2": 0, "hydrogens_filtered": 0, "restrained": 0, "shipped": 0,
-            "mobile_cyclic": 0}
+            "mobile_cyclic": 0, "runaway_skipped": 0}
     sizes = {}
     t0 = time.time()
     for c in cases:
         obs = run_recorded(c)
         molgen.purge()
         rec = obs["rec"]
+        if obs["runaway"]:
+            hist["runaway_skipped"] += 1
+            continue
         ns = sum(len(a) for _, a in obs["view_start"][0])
         ne = sum(len(a) for _, a in obs["view_end"][0])
         hist["tie" if ns == ne else ("start_mobile" if ns < ne else "end_mobile")] += 1
@@ -959,7 +999,7 @@ def correspondence(ctx):
         terms.append(term_case(c, obs))
         meta.append(c)
         ctx.count(("K", c["seed"], ns, ne), nontrivial=bool(rec.args is not None and any(s.get("acc") for s in rec.steps)))
-    for c in (cases[0], cases[len(SHIPPED) + 2], cases[-1]):
+    for c in (meta[0], meta[len(SHIPPED) + 2], meta[-1]):
         ctx.sample({k: (v if k not in ("start", "end") else
                         {kk: vv for kk, vv in v.items() if kk != "vel"}) for k, v in c.items()}, limit=3)
     K["impl_seconds"] = round(time.time() - t0, 1)
